@@ -481,7 +481,13 @@ bus_registry_acquire_service (BusRegistry      *registry,
 
   limit = bus_context_get_max_services_per_connection (registry->context);
 
-  if (bus_connection_get_n_services_owned (connection) >= limit)
+  /* A request for a name this connection already owns, or is already
+   * queued for, does not add to what it owns: the limit does not apply. */
+  service = bus_registry_lookup (registry, service_name);
+
+  if (bus_connection_get_n_services_owned (connection) >= limit &&
+      (service == NULL ||
+       _bus_service_find_owner_link (service, connection) == NULL))
     {
       DBusError tmp_error;
 
